@@ -25,6 +25,9 @@ class Any:
         if endswith is not None:
             self.regexp += escape(endswith)
 
+        # self.regexp is a piece to be embedded in a bigger regular expression
+        # (see Data.pack_regexp), a value is compared as a whole
+        self.regexp_for_the_whole_value = compile(b"(?s)" + self.regexp)
         self.regexp = compile(self.regexp)
         self.__eq__ = self.eq_for_regexp
         self.__ne__ = self.ne_for_regexp
@@ -48,10 +51,10 @@ class Any:
         return False
 
     def eq_for_regexp(self, other):
-        return bool(self.regexp.search(other))
+        return bool(self.regexp_for_the_whole_value.fullmatch(other))
 
     def ne_for_regexp(self, other):
-        return not bool(self.regexp.search(other))
+        return not self.eq_for_regexp(other)
 
 
 def anything_like(pkt_class):
